@@ -280,8 +280,9 @@ func faultVariants(rng *rand.Rand, m *ref.MCMap) []struct {
 			b.Declared = len(b.Entries)
 			c.Blocks = append(c.Blocks, b)
 			add("unequal-bounds:"+kind, c)
-			if kind != "codespacerange" {
-				// reversed range
+			{
+				// reversed range (code-space ranges included: <1080> <107f> is
+				// reversed both as a number and byte by byte)
 				c = clone()
 				b = ref.MBlock{Kind: kind}
 				for j := rng.IntN(3); j >= 0; j-- {
@@ -374,6 +375,43 @@ func runC07(r *rt.Runner) {
 			}
 			c.Nontrivial(file, func() string { return head(file, 500) })
 		})
+	}
+	// full bfrange blocks with long array destinations (one array element per
+	// code of a one-byte span, up to 256)
+	for _, arrLen := range []int{1, 100, 150, 199, 200, 201, 256} {
+		for _, at := range []int{0, 50, 99} {
+			arrLen, at := arrLen, at
+			r.Case("full-block", func(c *rt.C) {
+				rng := c.Rand()
+				m := ref.GenCMap(rng, "Full")
+				m.Blocks = []ref.MBlock{{Kind: "codespacerange", Entries: []ref.MEntry{{Lo: []byte{0, 0}, Hi: []byte{0xff, 0xff}}}, Declared: 1}}
+				b := ref.MBlock{Kind: "bfrange", Declared: 100}
+				for i := 0; i < 100; i++ {
+					e := ref.MEntry{Lo: []byte{byte(i), 0}, Hi: []byte{byte(i), 0xff}, Dst: ref.MDst{Kind: "str", S: []byte{0, byte(i)}}}
+					if i == at {
+						e.Hi = []byte{byte(i), byte(arrLen - 1)}
+						e.Dst = ref.MDst{Kind: "arr"}
+						for j := 0; j < arrLen; j++ {
+							e.Dst.Arr = append(e.Dst.Arr, []byte{byte(j >> 8), byte(j)})
+						}
+					}
+					b.Entries = append(b.Entries, e)
+				}
+				m.Blocks = append(m.Blocks, b)
+				file := ref.RenderFile(rng, []*ref.MCMap{m})
+				c.SetDetail(func() string { return fmt.Sprintf("file: %q", head(file, 3000)) })
+				c.Count("full blocks with an array destination")
+				d, err := postscript.ReadCMap(bytes.NewReader(file))
+				if err != nil {
+					c.Violation(fmt.Sprintf("full-block:array-%d-at-%d|%s", arrLen, at, errClass(err)), fmt.Sprintf("ReadCMap failed on a file in the standard form (100 bfrange entries, entry %d with an array of %d strings): %v", at, arrLen, err), "")
+					return
+				}
+				if diffs := compareCMap(d, m); len(diffs) > 0 {
+					c.Violation("full-block|"+strings.SplitN(diffs[0], " ", 2)[0], "returned CMap differs from the file:\n  "+joinLines(diffs), "")
+				}
+				c.Nontrivial(file, nil)
+			})
+		}
 	}
 	// single-fault variants: each must be rejected
 	nf := r.N(1000, 20000)
